@@ -69,6 +69,8 @@ struct Built {
     core_debug: Option<String>,
     /// for wrappers: the bytes that a leaking Debug would show (unused part of the current keystream block)
     buffered: Vec<u8>,
+    /// false when a call of the history was refused (then `buffered` is not meaningful)
+    history_ok: bool,
 }
 
 fn build(ctx: &Ctx, suite: &Suite, family: usize, sel: usize, key: &[u8], ivseed: (u8, u32), hist: &[usize], pos_sel: u8) -> (String, Option<String>, Built) {
@@ -85,7 +87,7 @@ fn build(ctx: &Ctx, suite: &Suite, family: usize, sel: usize, key: &[u8], ivseed
                 let d = tape::bytes(3, ivseed.1 ^ i as u32, (n % 4) * f.unit());
                 let _ = run_simple(o.as_mut(), &d);
             }
-            (f.type_name(), f.alg_name(), Built { debug: o.debug(), core_debug: None, buffered: vec![] })
+            (f.type_name(), f.alg_name(), Built { debug: o.debug(), core_debug: None, buffered: vec![], history_ok: true })
         }
         1 => {
             let f = &suite.buf_cfb[(sel * suite.buf_cfb.len()) >> 8];
@@ -95,7 +97,7 @@ fn build(ctx: &Ctx, suite: &Suite, family: usize, sel: usize, key: &[u8], ivseed
                 let mut d = tape::bytes(3, ivseed.1 ^ i as u32, *n);
                 o.process(&mut d);
             }
-            (f.type_name(), f.alg_name(), Built { debug: o.debug(), core_debug: None, buffered: vec![] })
+            (f.type_name(), f.alg_name(), Built { debug: o.debug(), core_debug: None, buffered: vec![], history_ok: true })
         }
         2 => {
             let f = &suite.streams[(sel * suite.streams.len()) >> 8];
@@ -119,44 +121,45 @@ fn build(ctx: &Ctx, suite: &Suite, family: usize, sel: usize, key: &[u8], ivseed
                     let _ = o.set_block_pos(p);
                 }
             }
-            (f.core_type_name(), f.alg_name(), Built { debug: o.debug(), core_debug: None, buffered: vec![] })
+            (f.core_type_name(), f.alg_name(), Built { debug: o.debug(), core_debug: None, buffered: vec![], history_ok: true })
         }
         3 => {
             let f = &suite.streams[(sel * suite.streams.len()) >> 8];
             let iv = tape::bytes(ivseed.0, ivseed.1, bs);
             let mut o = f.make(Ctor::New, key, &iv).expect("harness: ctor");
             let mut total = 0usize;
+            let mut history_ok = true;
             for (i, n) in hist.iter().enumerate() {
                 let d = tape::bytes(3, ivseed.1 ^ i as u32, *n);
                 let mut out = vec![0u8; d.len()];
-                let _ = o.try_apply(ApplyKind::Inout, &d, &mut out);
+                history_ok &= o.try_apply(ApplyKind::Inout, &d, &mut out).is_ok();
                 total += n;
             }
             // what a leaking Debug would show: the unused part of the current keystream block, read
             // from an identically driven twin (no reference model involved)
             let off = total % bs;
-            let buffered = if off == 0 {
+            let buffered = if off == 0 || !history_ok {
                 vec![]
             } else {
                 let mut twin = f.make(Ctor::New, key, &iv).expect("harness: ctor");
                 for (i, n) in hist.iter().enumerate() {
                     let d = tape::bytes(3, ivseed.1 ^ i as u32, *n);
                     let mut out = vec![0u8; d.len()];
-                    let _ = twin.try_apply(ApplyKind::Inout, &d, &mut out);
+                    history_ok &= twin.try_apply(ApplyKind::Inout, &d, &mut out).is_ok();
                 }
                 let z = vec![0u8; bs - off];
                 let mut pending = vec![0u8; bs - off];
-                let _ = twin.try_apply(ApplyKind::Inout, &z, &mut pending);
+                history_ok &= twin.try_apply(ApplyKind::Inout, &z, &mut pending).is_ok();
                 pending
             };
-            (f.type_name(), f.alg_name(), Built { debug: o.debug(), core_debug: o.core_debug(), buffered })
+            (f.type_name(), f.alg_name(), Built { debug: o.debug(), core_debug: o.core_debug(), buffered, history_ok })
         }
         _ => {
             let v = CtsVariant::ALL[(sel * 6) >> 8];
             let f = suite.cts(v).unwrap();
             let iv = tape::bytes(ivseed.0, ivseed.1, bs);
             let o = f.make(Ctor::New, key, &iv).expect("harness: ctor");
-            (f.type_name(), None, Built { debug: o.debug(), core_debug: None, buffered: vec![] })
+            (f.type_name(), None, Built { debug: o.debug(), core_debug: None, buffered: vec![], history_ok: true })
         }
     }
 }
@@ -193,6 +196,12 @@ fn debug_text(ctx: &Ctx, t: &mut Tape<'_>, r: &mut Report) -> CheckResult {
                 // bytes must be exactly the unused part of the current keystream block
                 let ((n1, v1), (n2, v2)) = (strip_buffer_data(d1), strip_buffer_data(d2));
                 ensure!(n1 == n2, format!("C17/debug-varies/{ty}"), "Debug text differs outside buffer_data: `{d1}` vs `{d2}`");
+                if !(b1.history_ok && b2.history_ok) {
+                    // a call of the history was refused (e.g. an IV whose counter is at its limit on a tree
+                    // where exhaustion is mis-detected): the pending bytes are unknown, nothing more to compare
+                    r.label("history-rejected");
+                    return Ok(());
+                }
                 ensure!(v1 == b1.buffered && v2 == b2.buffered, format!("C17/debug-leaks-other-data/{ty}"), "buffer_data shows {v1:?} / {v2:?}, the pending keystream bytes are {:?} / {:?}", b1.buffered, b2.buffered);
                 if !v1.is_empty() || !v2.is_empty() {
                     r.excluded_known += 1;
